@@ -7,7 +7,8 @@
       neutral - no attribute active at any line break or at the end                         (C14)
       width   - no line longer than e.w columns                                             (C15)
       lines   - exactly e.h lines                                                           (C16)
-      attrs   - every identified glyph carries exactly the expected attributes              (C14) *)
+      attrs   - every identified glyph carries exactly the expected attributes              (C14)
+      centred - the highlighted item's rows sit in the vertical middle of the frame          (C16) *)
 EXTENDS Term, TLC, Json
 Log == ndJsonDeserialize("trace.ndjson")
 VARIABLES l, bad
@@ -28,7 +29,8 @@ Failed(e) ==
     (IF "neutral" \in want /\ ~NeutralAtBreaks(st) THEN <<"neutral">> ELSE <<>>) \o
     (IF "width" \in want /\ ~WidthBound(st, e.w) THEN <<"width">> ELSE <<>>) \o
     (IF "lines" \in want /\ ~LineCount(st, e.h) THEN <<"lines">> ELSE <<>>) \o
-    (IF "attrs" \in want /\ ~AttrsOK(f, e.expect) THEN <<"attrs">> ELSE <<>>)
+    (IF "attrs" \in want /\ ~AttrsOK(f, e.expect) THEN <<"attrs">> ELSE <<>>) \o
+    (IF "centred" \in want /\ ~Centred(e.h, e.cursor_top, e.cursor_rows) THEN <<"centred">> ELSE <<>>)
 
 Init == l = 1 /\ bad = <<>>
 Step == /\ l <= Len(Log) /\ l' = l + 1
